@@ -91,6 +91,8 @@ class C15(MergeFamProp):
             'a targeted family rewrites the same keys with values of changing kind (scalar / list / mapping, empty or falsy ones '
             'included, untagged or with a priority tag); non-trivial = >= 2 stages; distinct by SHA-1')
     ASSUMPTIONS = ['the explicit remove-this-key idiom (and any explicit !del in the repeated document) is excluded from the repeat relation, as the property says',
+                   'the repeat relation compares results the way Python compares dicts (key order is not part of the result): under a deleting mapping a key that '
+                   'was replaced in place the first time is pruned and re-created at the end the second time (model theorem C15_repeat_last_tagged_reorders, replayed)',
                    'repeat-last failures on sequences combining lists with priority tags are attributed to known finding D18 — only when the model, '
                    'which reproduces the unchanged code, agrees with the implementation on the base run and on every related run']
 
@@ -102,6 +104,13 @@ class C15(MergeFamProp):
             D(M({'a': Q([S(1), S(2, kw={'prio': 1})])}), M({'a': Q([S(8, kw={'prio': 1}), S(9)])})),      # D18 (repeat)
             D(M({'a': Q([S('x'), S('y')])}), M({'a': M([(0, M({'p': S(1)})), (-2, Q([S(5)]))])})),      # D28 (repeat raises)
             D(M({'a': M({'b': M({'c': M({'l': Q([S(1), S(2), S(3)])})})})}), M({'a': M({'b': M({'c': M({'l': Q([S(9)])})})}, kw={'del': False})}), vseed=7),
+            # tagged trees of mappings (C15_Tagged.lean): the documents of the non-vacuity examples ...
+            D(M({'a': M({'x': S(1, kw={'prio': 1}), 'y': S(2)}), 'w': S(5, kw={'prio': -1}), 'k': S(0)}),
+              M({'a': M({'z': S(3)}, kw={'del': True}), 'w': S(6), 'm': M({'q': S(1), 'r': S(2)}, kw={'del': False})}), vseed=3),
+            D(M({'a': M({'x': S(1, kw={'prio': 1}), 'y': S(2)}), 'w': S(5, kw={'prio': -1}), 'k': S(0)}),
+              M({'a': M({'x': S(7)}), 'w': S(6), 'm': M({'q': S(1)}, kw={'del': False})}, kw={'del': True}), vseed=5),
+            # ... and the witness of C15_repeat_last_tagged_reorders: repeating the last document moves the key `b` to the end
+            D(M({'b': M({'p': S(1, kw={'prio': 1})}), 'c': S(2, kw={'prio': 1})}), M({'b': S('')}, kw={'del': True})),
         ]
 
     def gen_cases(self, rng, n, tier):
@@ -206,6 +215,10 @@ class C15(MergeFamProp):
             if name == 'perm':
                 if ('ok' in b) != ('ok' in x) or ('ok' in b and unordered(strip_ids(b['ok'])) != unordered(strip_ids(x['ok']))):
                     return f'perm: permuting keys changed more than key order: {json.dumps(strip_ids(b))[:120]} vs {json.dumps(strip_ids(x))[:120]}'
+                continue
+            if name == 'repeat' and 'ok' in b and 'ok' in x and unordered(strip_ids(b['ok'])) == unordered(strip_ids(x['ok'])):
+                # equal as Python dicts: repeating a deleting document may re-create a pruned key at the end of its mapping
+                # (Lean: C15_repeat_last_tagged_reorders, the proved statement C15_repeat_last_tagged is up to key order)
                 continue
             if name.startswith('flag') and 'ok' not in b:
                 continue
